@@ -1,7 +1,7 @@
 """Generated modules whose doctests have by-construction outcomes (shared by C10, C15, C11)."""
 
 KINDS = ['pass', 'fail_output', 'fail_exc', 'all_skipped', 'partly_skipped', 'expected_exc', 'disabled', 'comment_only',
-         'note_then_skip', 'skip_then_note']
+         'note_then_skip', 'skip_then_note', 'fail_directive_first', 'fail_compile_first']
 DISABLE_WORDS = ['# DISABLE_DOCTEST', '#DISABLE', '#  unstable', '# FAILING', '#SCRIPT', '# slow_doctest']
 
 
@@ -25,6 +25,12 @@ def doc_lines(kind, n):
         return ['>>> # a remark %d' % n, '>>> # xdoctest: +SKIP', ">>> print('n%d')" % n, 'never compared']
     if kind == 'skip_then_note':
         return [">>> print('k%d')  # xdoctest: +SKIP" % n, 'k%d' % n, '>>> # a trailing remark']
+    if kind == 'fail_directive_first':
+        # fails before anything of the doctest ran: the directive of its first part cannot be applied
+        return ['>>> # xdoctest: +REQUIRES(module:os:path:join%d)' % n, ">>> print('q%d')" % n, 'q%d' % n]
+    if kind == 'fail_compile_first':
+        # fails before anything ran: the first part parses but does not compile
+        return ['>>> return %d' % n, ">>> print('r%d')" % n]
     if kind == 'comment_only':
         return ['>>> # nothing but a comment %d' % n]
     raise KeyError(kind)
@@ -33,7 +39,7 @@ def doc_lines(kind, n):
 # verdict when the doctest is run
 VERDICT = {'pass': 'passed', 'fail_output': 'failed', 'fail_exc': 'failed', 'all_skipped': 'skipped',
            'partly_skipped': 'passed', 'expected_exc': 'passed', 'disabled': 'failed', 'comment_only': 'skipped',
-           'note_then_skip': 'skipped', 'skip_then_note': 'skipped'}
+           'note_then_skip': 'skipped', 'skip_then_note': 'skipped', 'fail_directive_first': 'failed', 'fail_compile_first': 'failed'}
 
 
 def module_source(kinds, layout='functions'):
